@@ -10,9 +10,10 @@ Variable F : Type.
 Variables (zero one : F) (add mul sub : F -> F -> F) (opp : F -> F) (div : F -> F -> F) (inv : F -> F).
 Hypothesis Fth : field_theory zero one add mul sub opp div inv (@eq F).
 Variable eq_dec : forall x y : F, {x = y} + {x <> y}.
+Variable idx_of : F -> option nat.
 
-Notation solve := (solve F zero one add mul sub opp div inv eq_dec).
-Notation run := (run F zero one add mul sub opp div inv eq_dec).
+Notation solve := (solve F zero one add mul sub opp div inv eq_dec idx_of).
+Notation run := (run F zero one add mul sub opp div inv eq_dec idx_of).
 Notation holds := (holds F zero one add mul opp).
 
 (* Success: for every system (instruction list + level order), witness, hint oracle: the returned
@@ -23,7 +24,7 @@ Theorem C06_solve_ok_sat : forall orc is_r1cs nbw instrs order w v,
   extends F (init_vals F one is_r1cs w) v /\
   (forall x, x < nbw -> v x <> None) /\
   (forall i ins, In i order -> nth_error instrs i = Some ins -> holds v ins).
-Proof. exact (solve_ok_sat F zero one add mul sub opp div inv Fth eq_dec). Qed.
+Proof. exact (solve_ok_sat F zero one add mul sub opp div inv Fth eq_dec idx_of). Qed.
 
 Theorem C06_witness_at_leading_wires : forall is_r1cs w x,
   init_vals F one is_r1cs w x = if is_r1cs then nth_error (one :: w) x else nth_error w x.
@@ -36,7 +37,7 @@ Theorem C06_run_err_violated : forall orc prog v k j,
   run orc v prog = Err k j -> k = EUnsat \/ k = EDivZero \/ k = EBool ->
   exists pre i ins post v1, prog = pre ++ (i, ins) :: post /\ run orc v pre = Ok v1 /\
      forall v', extends F v1 v' -> ~ holds v' ins.
-Proof. exact (run_err_violated F zero one add mul sub opp div inv Fth eq_dec). Qed.
+Proof. exact (run_err_violated F zero one add mul sub opp div inv Fth eq_dec idx_of). Qed.
 
 (* Sparse solution vectors: positions of the same wire carry equal values; public inputs lead L *)
 Theorem C06_lro_copy : forall v nb_pub size instrs,
@@ -54,12 +55,12 @@ End C06.
 
 (* The same statement at the instance evaluated by the correspondence check for the 47-element
    field: no hypothesis is left (F_47 is a proved field, Base/F47.v). *)
-Theorem C06_solve_ok_sat_F47 : forall orc is_r1cs nbw instrs order w v,
-  solve F47 zero47 one47 add47 mul47 sub47 opp47 div47 inv47 eq_dec47 orc is_r1cs nbw instrs order w = Ok v ->
+Theorem C06_solve_ok_sat_F47 : forall idx orc is_r1cs nbw instrs order w v,
+  solve F47 zero47 one47 add47 mul47 sub47 opp47 div47 inv47 eq_dec47 idx orc is_r1cs nbw instrs order w = Ok v ->
   extends F47 (init_vals F47 one47 is_r1cs w) v /\
   (forall x, x < nbw -> v x <> None) /\
   (forall i ins, In i order -> nth_error instrs i = Some ins -> holds F47 zero47 one47 add47 mul47 opp47 v ins).
-Proof. exact (C06_solve_ok_sat F47 zero47 one47 add47 mul47 sub47 opp47 div47 inv47 F47_field eq_dec47). Qed.
+Proof. intros idx. exact (C06_solve_ok_sat F47 zero47 one47 add47 mul47 sub47 opp47 div47 inv47 F47_field eq_dec47 idx). Qed.
 
 (* F5 (fixed): the former counterexample DivUnchecked(0,0) on the sparse solver now solves *)
 Theorem C06_divunchecked_0_0_solves :
